@@ -8,9 +8,6 @@
 struct vf_in {
 	unsigned char j[NJ * B];
 	unsigned int s_start, s_sequence, s_first;
-#if FEAT_CSUM
-	unsigned int csum[NJ];
-#endif
 };
 VF_DECLARE_INPUT(struct vf_in, IN)
 #include "vf_input.inc"
@@ -19,14 +16,7 @@ VF_DECLARE_INPUT(struct vf_in, IN)
 #include "jgeom.h"
 #include "jenv.h"
 
-#if FEAT_CSUM
-#define REF_CSUM_HOOKS
-#define REF_CSUM(k) IN.csum[k]
-#endif
 #include "jbd2_ref.h"
-#if FEAT_CSUM
-#include "jbd2_ref_csum.h"
-#endif
 
 /* STUB: the revoke table is not touched by PASS_SCAN: reaching it is a violation */
 int jbd2_journal_set_revoke(journal_t *j, unsigned long long b, tid_t s) { (void) j; (void) b; (void) s; PROP(0, "PASS_SCAN does not touch the revoke table"); return 0; }
@@ -36,14 +26,10 @@ void jbd2_journal_clear_revoke(journal_t *j) { (void) j; }
 int main(void)
 {
 	static struct recovery_info info;
-	int rc, i;
+	int rc;
 
 	VF_INPUT(IN);
 	VF_ASSUME_GEOMETRY();
-#if FEAT_CSUM
-	for (i = 0; i < NJ; i++)
-		vf_blk_csum[i] = IN.csum[i];
-#endif
 	vf_make_journal(VF_FIRST, IN.s_sequence, VF_START);
 
 	ref_walk(IN.s_sequence);
@@ -53,19 +39,8 @@ int main(void)
 
 	rc = do_one_pass(&vf_journal, &info, PASS_SCAN);
 
-#if FEAT_CSUM
-	ref_scan_verdict(IN.s_sequence);
-	if (ref_scan_error) {
-		PROP(rc != 0, "a checksum failure in a transaction followed by newer commits aborts recovery");
-	} else {
-		PROP(rc == 0, "scan succeeds");
-		PROP(info.end_transaction == IN.s_sequence + ref_end_ord, "end of log = first transaction without a valid commit");
-		PROP(vf_journal.j_failed_commit == (ref_failed_commit ? IN.s_sequence + ref_failed_ord : 0), "failed commit id reported iff a committed-looking transaction failed its checksum");
-	}
-#else
 	PROP(rc == 0, "scan succeeds");
 	PROP(info.end_transaction == IN.s_sequence + ref_ncommits, "end of log = first transaction without a commit block");
-#endif
 	PROP(info.start_transaction == IN.s_sequence, "start transaction is the superblock's sequence");
 	PROP(vf_fs_writes == 0 && vf_fs_oob_writes == 0 && vf_j_writes == 0, "scanning writes nothing");
 	PROP(vf_j_oob_reads == 0, "scan stays inside the journal");
